@@ -201,7 +201,14 @@ def rule_R1(text, counts):
         m_ = mask(text)
         m = re.search(r"(?m)^([ \t]*)(?:ic_cdk::(?:api::)?)?(?:print|println!|eprintln!|print!)\s*\(", m_)
         if not m:
-            return text
+            # expression position (e.g. a match arm): the macro call has type (), replace it by ()
+            m2 = re.search(r"\b(?:ic_cdk::(?:api::)?)?(?:println!|eprintln!|print!)\s*\(", m_)
+            if not m2:
+                return text
+            c2 = match_close(m_, m2.end() - 1)
+            text = text[:m2.start()] + "()" + text[c2 + 1:]
+            counts["R1"] = counts.get("R1", 0) + 1
+            continue
         o = m.end() - 1
         c = match_close(m_, o)
         k = c + 1
